@@ -18,6 +18,7 @@ import (
 	"log"
 	"math/rand/v2"
 	"net"
+	"path"
 	"strings"
 	"testing"
 	"time"
@@ -44,18 +45,18 @@ var w6sWorld = driver.World{
 
 func pk[T any](r *rand.Rand, xs ...T) T { return xs[r.IntN(len(xs))] }
 
-var w6sTopics = []string{"orders", "orders_eu", "secret", "secret_keys", "audit", "pay"}
+var w6sTopics = []string{"orders", "orders_eu", "secret", "secret_keys", "audit", "pay", "public.orders", "public.audit", "top_secret_x"}
 
 func w6sGen(r *rand.Rand, prop, tier string) *simrt.Case {
 	c := &simrt.Case{Config: map[string]int64{}}
-	c.Config["acl"] = int64(r.IntN(7))
+	c.Config["acl"] = int64(r.IntN(10))
 	c.Config["cache_ttl_s"] = pk[int64](r, 0, 1, 30)
 	c.Config["cache_max"] = pk[int64](r, 0, 2, 100)
 	c.Config["max_frag"] = pk[int64](r, 0, 0, 1, 9, 200)
 	nconn := 1 + r.IntN(3)
 	for cn := 0; cn < nconn; cn++ {
 		for i := 0; i < 1+r.IntN(6); i++ {
-			c.Program = append(c.Program, simrt.Op{Actor: cn, Kind: "query", A: int64(r.IntN(10)), B: int64(r.Uint32()), C: int64(r.IntN(6)), D: int64(r.IntN(6))})
+			c.Program = append(c.Program, simrt.Op{Actor: cn, Kind: "query", A: int64(r.IntN(10)), B: int64(r.Uint32()), C: int64(r.IntN(len(w6sTopics))), D: int64(r.IntN(len(w6sTopics)))})
 			if r.IntN(5) == 0 {
 				c.Program = append(c.Program, simrt.Op{Actor: cn, Kind: "sleep", A: pk[int64](r, 10, 1500, 40000)})
 			}
@@ -82,6 +83,14 @@ func w6sACL(n int64) ([]string, []string) {
 	case 6:
 		// a deny entry inside an allowed pattern
 		return []string{"orders*", "secret*"}, []string{"orders_eu", "secret_keys"}
+	case 7:
+		// glob patterns with more than a trailing star
+		return nil, []string{"*secret*", "aud?t*"}
+	case 8:
+		return []string{"ord?rs*", "pay", "audit"}, []string{"*_keys", "*_eu"}
+	case 9:
+		// bare names: a schema-qualified spelling is a different name
+		return []string{"orders", "audit", "pay"}, nil
 	default:
 		return []string{"orders", "audit"}, []string{"secret*", "pay"}
 	}
@@ -324,6 +333,9 @@ func w6sAllowed(allow, deny []string, topic string) bool {
 				return true
 			case p == topic:
 				return true
+			}
+			if ok, err := path.Match(p, topic); err == nil && ok {
+				return true // the ACL's documented pattern language is shell globbing (stdlib path.Match)
 			}
 		}
 		return false
